@@ -51,7 +51,7 @@ func zzCheckCER(b []byte) *diam.Message {
 }
 
 // zzPeerCEA builds the peer's answer to a CER from symbolic parts.
-func zzPeerCEA(cer *diam.Message, tag string) (b []byte, acceptable bool) {
+func zzPeerCEA(cer *diam.Message, tag string, kinds int) (b []byte, acceptable bool) {
 	rc := vU32(tag + ".rc")
 	a := cer.Answer(rc)
 	hasOH, hasOR := true, true
@@ -65,10 +65,30 @@ func zzPeerCEA(cer *diam.Message, tag string) (b []byte, acceptable bool) {
 		a.NewAVP(avp.OriginRealm, avp.Mbit, 0, datatype.DiameterIdentity("peers"))
 	}
 	common := false
-	if zzFlag(tag + ".hasapp") {
+	// application information of the CEA: none, a plain Auth- / Acct-Application-Id, or a
+	// Vendor-Specific-Application-Id group (Vendor-Id first as in RFC 6733, or the id alone)
+	switch vChoice(tag+".appkind", kinds) {
+	case 1:
 		id := vU32(tag + ".app")
 		a.NewAVP(avp.AuthApplicationID, avp.Mbit, 0, datatype.Unsigned32(id))
 		common = id == 0xffffffff || zzSup(id, "auth")
+	case 2:
+		id := vPick32(tag+".app", 4, 3, 999999, 0xffffffff) // (the 32-bit id space is covered by case 1 and by C11)
+		a.NewAVP(avp.VendorSpecificApplicationID, avp.Mbit, 0, &diam.GroupedAVP{AVP: []*diam.AVP{
+			diam.NewAVP(avp.VendorID, avp.Mbit, 0, datatype.Unsigned32(10415)),
+			diam.NewAVP(avp.AuthApplicationID, avp.Mbit, 0, datatype.Unsigned32(id)),
+		}})
+		common = id == 0xffffffff || zzSup(id, "auth")
+	case 3:
+		id := vPick32(tag+".app", 4, 3, 999999, 0xffffffff) // (the 32-bit id space is covered by case 1 and by C11)
+		a.NewAVP(avp.AcctApplicationID, avp.Mbit, 0, datatype.Unsigned32(id))
+		common = id == 0xffffffff || zzSup(id, "acct")
+	case 4:
+		id := vPick32(tag+".app", 4, 3, 999999, 0xffffffff) // (the 32-bit id space is covered by case 1 and by C11)
+		a.NewAVP(avp.VendorSpecificApplicationID, avp.Mbit, 0, &diam.GroupedAVP{AVP: []*diam.AVP{
+			diam.NewAVP(avp.AcctApplicationID, avp.Mbit, 0, datatype.Unsigned32(id)),
+		}})
+		common = id == 0xffffffff || zzSup(id, "acct")
 	}
 	out, err := a.Serialize()
 	vAssume(err == nil)
@@ -116,7 +136,7 @@ func zzC12_handshake() {
 		case 0: // answer
 			cer, err := diam.ReadMessage(&zzReader{b: t.written[len(t.written)-1]}, dict.Default)
 			vAssume(err == nil)
-			b, ok := zzPeerCEA(cer, "cea")
+			b, ok := zzPeerCEA(cer, "cea", vParam("CEAKINDS", 5))
 			t.in <- b
 			vQuiesce()
 			vAssert(done, "a CEA settles the handshake one way or the other")
@@ -169,7 +189,7 @@ func zzC12_handshake() {
 	vAssume(err == nil)
 	for i := 0; i < extra; i++ {
 		vKnown("KF-C12-extra-cea-panics", true)
-		b, _ := zzPeerCEA(cer, "late")
+		b, _ := zzPeerCEA(cer, "late", 2)
 		t.in <- b
 		vQuiesce()
 		vAssert(!t.isClosed, "the connection stays open whatever further or duplicate CEAs the peer sends")
